@@ -383,8 +383,8 @@ def rule_scan(ck: Check, repo: Repo) -> None:
             r.violation(q2, f"scan cell [{name}]", f"effects {eff}; expected {want}", repo.loc(f2))
 
 
-def rule_language_and_case(ck: Check, repo: Repo, folder: Folder) -> None:
-    r = ck.rule("R5", "LicenseRef- language; identifiers are never case-folded on the lint path")
+def rule_language_and_case(ck: Check, repo: Repo, folder: Folder, rid: str = "R5") -> None:
+    r = ck.rule(rid, "LicenseRef- language; identifiers are never case-folded on the lint path")
     rx = folder.known("reuse.extract", "_LICENSEREF_PATTERN")
     if not isinstance(rx, Regex):
         raise AnalysisError("_LICENSEREF_PATTERN did not fold")
